@@ -71,6 +71,7 @@ type FuncContract struct {
 	ElemInv  []ElemInvSpec // element invariants of long arrays (elem-invariant clauses)
 	CT       *CTSpec // secrecy clause (ct.go)
 	CTOnly   bool    // the block carries only a ct clause: no functional verification of the body
+	Hook     bool    // the function lives in a hook file behind an extra build tag (clause `hook`)
 	Public   []SpecExpr
 	Ghost    []string
 	Line     string
@@ -428,6 +429,8 @@ func ParseContracts(file, pkg string, configOK func(pred string) bool) (*PkgCont
 			cur.CT = c
 		case kw == "ct-only":
 			cur.CTOnly = true
+		case kw == "hook":
+			cur.Hook = true
 		case kw == "ghost":
 			cur.Ghost = append(cur.Ghost, fieldsComma(rest)...)
 		case kw == "uses":
